@@ -519,6 +519,7 @@ class Recorder:
         self.after = []  # events recorded after dispose returned / after terminal (filled by checks)
         self.script = None  # (k, fn): call fn() from inside the k-th notification
         self.raise_on_terminal = False  # the subscriber's own on_error / on_completed callback raises
+        self.on_each = None  # fn(value): called from inside every on_next (after it was recorded)
 
     # subscription management
     def subscribe(self, obs, **kw):
@@ -568,6 +569,8 @@ class Recorder:
             child = Recorder(w, "%s.%d" % (self.name, len(self.children)), True, depth=self.depth + 1)
             self.children.append(child)
             child.subscribe(v)
+        if self.on_each is not None:
+            self.on_each(v)
         self._react()
 
     drop_children_on_terminal = False
